@@ -649,7 +649,7 @@ def check_b(ck, repo):
     for p in paths(tp, {"self.poly_interaction_only": True}):
         if isinstance(p.ret, ast.Call):
             b = bind(p.ret, repo.func(POLY, "_transform_ionly").named_params)
-            cbn = src_of(b["multiply"]).split("%")[0] if "multiply" in b else None
+            cbn = src_of(b["multiply"]).replace("__def", "") if "multiply" in b else None
             cb = next((f for f in mul if f.name == cbn), None)
     if cb is not None:
         A, B, C = cb.named_params[:3]
